@@ -170,6 +170,24 @@ class Impl(object):
                 signal.alarm(0)
                 signal.signal(signal.SIGALRM, old)
 
+    def yielding(self, f):
+        """run a query with every loop iteration of its generator a yield point (drained at once by run_iterator):
+        the answer must not depend on how often the generator yields"""
+        def go():
+            TIS = sys.modules["traph.traph_iterator_state"].TraphIteratorState
+            orig = TIS.should_yield
+
+            def always(self_, yield_frequency=1000):
+                self_.n_iterations += 1
+                return True
+            TIS.should_yield = always
+            try:
+                return f()
+            finally:
+                TIS.should_yield = orig
+        self._yield_toggle = not getattr(self, "_yield_toggle", False)
+        return go if self._yield_toggle else f
+
     # ---- dispatcher -------------------------------------------------------------
     def exec(self, op, a):
         t = self.t
@@ -218,7 +236,18 @@ class Impl(object):
         if op == 6:
             return self.call(lambda: self.report(t.create_webentity(list(a[0]))))
         if op == 7:
-            return self.call(lambda: _b(t.delete_webentity(a[0], list(a[1]))))
+            def go7():
+                ps = list(a[1])
+                # the unchecked form is used where the checked one would succeed (every prefix attributed to that webentity)
+                if len(ps) % 2 == 1 and len(set(ps)) == len(ps):
+                    try:
+                        if all(t.get_webentity_by_prefix(p) == a[0] for p in ps):
+                            return _b(t.delete_webentity(a[0], ps, check_for_corruption=False))
+                    except TE:
+                        pass
+                return _b(t.delete_webentity(a[0], ps))
+            TE = self.traph_mod.TraphException
+            return self.call(go7)
         if op == 8:
             return self.call(lambda: _b(t.add_prefix_to_webentity(a[0], a[1])))
         if op == 9:
@@ -246,7 +275,7 @@ class Impl(object):
         if op == 24:
             return self.call(lambda: [[p["lru"], _b(p["crawled"])] for p in t.get_webentity_pages(a[0], list(a[1]))])
         if op == 25:
-            return self.call(lambda: [[p["lru"], _b(p["crawled"])] for p in t.get_webentity_crawled_pages(a[0], list(a[1]))])
+            return self.call(self.yielding(lambda: [[p["lru"], _b(p["crawled"])] for p in t.get_webentity_crawled_pages(a[0], list(a[1]))]))
         if op == 26:
             def go():
                 tok = a[3].decode("ascii") if a[3] is not None else None
@@ -259,12 +288,12 @@ class Impl(object):
                         r["token"].encode("ascii") if "token" in r else None]
             return self.call(go)
         if op == 27:
-            return self.call(lambda: [[p["lru"], p["indegree"]] for p in
-                                      t.get_webentity_most_linked_pages(a[0], list(a[1]), pages_count=a[2], max_depth=a[3])])
+            return self.call(self.yielding(lambda: [[p["lru"], p["indegree"]] for p in
+                                                    t.get_webentity_most_linked_pages(a[0], list(a[1]), pages_count=a[2], max_depth=a[3])]))
         if op == 28:
             return self.call(lambda: list(t.get_webentity_parent_webentities(a[0], list(a[1]))))
         if op == 29:
-            return self.call(lambda: list(t.get_webentity_child_webentities(a[0], list(a[1]))))
+            return self.call(self.yielding(lambda: list(t.get_webentity_child_webentities(a[0], list(a[1])))))
         if op == 30:
             return self.call(lambda: [list(x) for x in t.get_webentity_pagelinks(
                 a[0], list(a[1]), include_inbound=bool(a[2]), include_internal=bool(a[3]), include_outbound=bool(a[4]))])
@@ -289,7 +318,7 @@ class Impl(object):
                 if t.get_webentity_degree(a[1], list(a[2])) != t.get_webentity_indegree(a[1], list(a[2])) + t.get_webentity_outdegree(a[1], list(a[2])):
                     return Crash("get_webentity_degree != indegree + outdegree")
                 return [0 if w is None else w for w in s]
-            return self.call(go)
+            return self.call(self.yielding(go))
         if op == 33:
             def go():
                 r = [list(x) for x in t.get_page_links(a[0], include_inbound=bool(a[1]),
@@ -316,7 +345,7 @@ class Impl(object):
                         else:
                             res.append([src, 0, k, v])
                 return res
-            return self.call(go)
+            return self.call(self.yielding(go))
         if op == 35:
             return self.call(lambda: [[lru, _b(node.is_crawled())] for node, lru in t.pages_iter()])
         if op == 36:
@@ -437,7 +466,10 @@ def _interleave(self, specs, sched):
             elif sp[0] == 1:
                 gens.append(t.add_webentity_creation_rule_iter(sp[1], rule_regex(sp[2])))
             elif sp[0] == 3:
-                gens.append(t.get_webentities_links_iter(out=bool(sp[1]), include_auto=bool(sp[2])))
+                if sp[2]:
+                    gens.append(t.get_webentities_links_iter(out=bool(sp[1]), include_auto=True))
+                else:       # the directional aliases
+                    gens.append((t.get_webentities_outlinks_iter if sp[1] else t.get_webentities_inlinks_iter)(include_auto=False))
             elif sp[0] == 4:
                 gens.append(t.get_webentity_pagelinks_iter(sp[1], list(sp[2]), include_inbound=bool(sp[3]),
                                                            include_internal=bool(sp[4]), include_outbound=bool(sp[5])))
